@@ -15,6 +15,9 @@ META = dict(
          "row end-1}; non-trivial = failure after a completed item or inside a write",
     trusted_base=[
         "Coq 8.16.1 kernel (coqc), vm_compute for evaluating the model on cases",
+        "translator gen/py2v.py: Gen_effects.v (control skeletons of the appending functions, regenerated "
+        "from the source on every run) and the reading of its vocabulary calls as effect kinds "
+        "(EffectOrder.v / EffectOrderR.v, Skel.runs)",
         "hand-written model coq/RaggedModel.v (riterappend with its except-branch), tied by in-Coq "
         "differential evaluation",
         "the kernel's RLIMIT_FSIZE behaviour as the source of real write failures; NumPy as oracle "
